@@ -258,7 +258,9 @@ def gen_fs(ctx, ytk_ids):
         exts = rng.choice(exts_all)
         entries, stems = [], set()
         for _ in range(rng.randrange(0, 8)):
-            stem = rng.choice(["a", "b", "part", "x.y", "P1", "p1", "long_name-2", "c d", "gb", "Z"]) + rng.choice(["", "1", "_v2"])
+            # also stems that would read as fnmatch patterns if a lookup were ever globbed by key
+            stem = rng.choice(["a", "b", "part", "x.y", "P1", "p1", "long_name-2", "c d", "gb", "Z",
+                               "clone[2]", "p[cam]ori", "a[b", "x]y", "q(+)"]) + rng.choice(["", "1", "_v2"])
             if stem.lower() in stems:
                 continue
             stems.add(stem.lower())
